@@ -13,6 +13,19 @@ BASELINE_OFF = (
 
 # property -> (technique, level text, level note, design ref)
 CLAIMED = {
+    "C01": (
+        "TLC-enumerated behaviours of ArrayProgram.tla (with their NdArray.tla denotations) replayed into dask_array",
+        "Exhaustive within bounds, depth 1: TLC enumerates every behaviour of ArrayProgram.tla that builds one source (every "
+        "preset shape incl. 0- and 1-length axes, kinds int/float/bool) and applies one instance of any of the 28 modelled "
+        "operations, and computes the denotation (shape, kind, values) of the result in NdArray.tla; each behaviour is replayed "
+        "into dask_array under the chunk grids of its source and the computed values, shape, dtype and advertised shape/dtype are "
+        "compared with the denotation (NumPy runs the same program as a second oracle: spec != NumPy is a machinery error). "
+        "The corpora do not depend on the seed. Compositions deeper than one operation are not claimed by this check.",
+        "Trusted: TLC, NdArray.tla (cross-checked against NumPy on every behaviour), harness/replay.py. Known findings F11-F15 "
+        "(pad wrap wider than the axis, repeat/sliding_window_view/min/max on arrays with a zero-length axis, argmax(axis=None) "
+        "ties) are reported as KNOWN-FINDING. Binding negative control: flip replaced by identity must be detected.",
+        "DESIGN.md §4 C01, §9",
+    ),
     "C13": (
         "TLC-enumerated helper inputs; recorded outputs validated by TLC against Planner.tla (Trace_Plan)",
         "Exhaustive within bounds: TLC enumerates every (slice|int, axis length, chunking, pair of indices) of the "
@@ -24,6 +37,48 @@ CLAIMED = {
         "Trusted: TLC, the transcription of CPython slice semantics in ChunkAlgebra.tla (cross-checked against CPython by "
         "setup self-test), the JSON adapters in harness/impl_helpers.py. Bounds: n<=4..7, |step|<=3.",
         "DESIGN.md §4 C13",
+    ),
+    "C15": (
+        "TLC-enumerated (old grid, new grid, configuration) inputs; recorded plans and crosswalks validated by TLC (Trace_Plan)",
+        "Exhaustive within bounds: every pair of chunkings of every preset shape (1-D to 3-D) x (itemsize, threshold, "
+        "block-size limit, degree limit) tuples; plan_rechunk, old_to_new and merge_to_number are called and TLC checks "
+        "Planner.RechunkPlanVerdict (finite list of chunkings of the shape ending in new, every step within max(limit, largest "
+        "old, largest new), crosswalk tiles every new block exactly once with contiguous in-bounds pieces and equals the unique "
+        "tiling) and MergeVerdict.",
+        "Known finding F05 (steps inserted by _bound_degree exceed the budget) is reported as KNOWN-FINDING; unknown (nan) "
+        "chunk sizes are outside this check.",
+        "DESIGN.md §4 C15, §9",
+    ),
+    "C16": (
+        "TLC-enumerated (shape, per-axis spec, dtype size, limit, previous_chunks) inputs; outputs validated by TLC (Trace_Plan)",
+        "Exhaustive within bounds: every shape of the preset x every per-axis spec (uniform int, -1, None, 'auto', explicit "
+        "tuple, byte string) x (itemsize, limit) x previous_chunks (none or every grid); normalize_chunks is called in tuple, "
+        "dict and scalar form (which must agree) and TLC checks Planner.NormChunksVerdict on every accepted specification.",
+        "Known finding F03 (auto + previous_chunks exceeds the limit by the chunk-size tolerance) is reported as KNOWN-FINDING. "
+        "Specifications that normalize_chunks rejects are fine.",
+        "DESIGN.md §4 C16",
+    ),
+    "C17": (
+        "TLC-enumerated operand tuples x policy x limit; unify_chunks_expr layouts validated by TLC (Trace_Plan); values through "
+        "da.blockwise",
+        "Exhaustive within bounds for layouts: every chunking of each operand of the preset families (same label, broadcast, "
+        "size-1 axes, transposed labels, three operands) x policy auto/coarse/refine x unify-chunks-limit; TLC checks "
+        "Planner.UnifyVerdict (one common layout per label, refine only splits, no block inflated beyond max(limit, own largest)). "
+        "A strided sample of the same cases is computed through da.blockwise and compared with NumPy, block shapes compared with "
+        "the advertised chunks.",
+        "Trusted: adapters in harness/impl_helpers.py. The value part is a sample (every k-th enumerated case), the layout part "
+        "is exhaustive.",
+        "DESIGN.md §4 C17",
+    ),
+    "C27": (
+        "TLC-enumerated layout pairs validated by TLC (Trace_Plan) + node estimates over TLC-enumerated ArrayProgram behaviours",
+        "Exhaustive within bounds: (a) every pair of chunkings of every axis length <= 7 (quick) / 9 (thorough): moved_fraction "
+        "in [0,1], 0 for identical layouts and pure splits (Planner.MovedVerdict); (b) for every depth-1 behaviour of "
+        "ArrayProgram.tla x source grids, the estimate of every node of the raw and optimized expression is a pair with "
+        "0 <= min <= max, never NaN (all chunks known), (0,0) for a rechunk to the same chunks and for the alias x.blocks[0].",
+        "Known finding F06 (Blocks reports a non-zero estimate) is reported as KNOWN-FINDING; F16 (Blockwise estimate raised "
+        "TypeError for list indices) was repaired by a fix: commit. Arrays with unknown chunk sizes are outside this check.",
+        "DESIGN.md §4 C27, §9",
     ),
 }
 
@@ -59,7 +114,7 @@ def build():
     for pid in ALL:
         if pid in CLAIMED:
             continue
-        reason = NOT_APPLICABLE.get(pid, "check not built yet in this session (planned in DESIGN.md §4); not claimed")
+        reason = NOT_APPLICABLE.get(pid, "no registered check yet: designed in DESIGN.md §4 but not built and triaged within the sessions so far (DESIGN.md §9); not claimed")
         na.append({"property_id": pid, "reason": reason})
     return {
         "version": 1,
